@@ -1,3 +1,4 @@
 pub mod canon;
 pub mod fast;
 pub mod tt;
+pub mod dotread;
